@@ -316,6 +316,69 @@ def r17_6(chk, facts):
                      {'stale_advances': len(stale)}, fn['q'])
     chk.require(n >= 2, 'R17.6: only %d generated streaming decoders found' % n)
 
+SEQ = ('std::vector<', 'std::list<', 'std::deque<', 'std::forward_list<')
+
+def r17_7(chk, facts):
+    """T x{expr of type T} for a sequence of basic_json: initializer_list<basic_json> is viable (a basic_json can be built from the whole
+    container), so the compilers that prefer the initializer_list constructor (CWG 2137, g++) build a one-element container holding the
+    container; clang copies.  Parentheses are unambiguous."""
+    chk.rule('R17.7', 'no brace-initialisation `T x{e}` with e of type T where T is a sequence of basic_json (the result differs between '
+                      'compilers: one element holding the array versus a copy); found in the typed conversion code it puts a spurious leading '
+                      'element into as<std::vector<json>>()', floor=1)
+    ctl = False; n = 0; seen = set()
+    for fn in facts.functions:
+        if fn.get('body') is None or fn.get('dep'): continue
+        in_lib = fn['file'].startswith('include/jsoncons/')
+        in_ctl = fn['file'].startswith('drivers/reflect.cpp') and fn['n'] == 'jcsa_use_vector_of_json'
+        if not (in_lib or in_ctl): continue
+        for x in A.walk_no_lambda(fn['body']):
+            if x.get('k') != 'InitListExpr' or len(x.get('c') or []) != 1 or not x.get('t') or not x['c'][0].get('t'): continue
+            t = fn['_types'][x['t'] - 1]; ct = fn['_types'][x['c'][0]['t'] - 1]
+            if t != ct or not t.startswith(SEQ) or 'basic_json' not in t.split('<', 1)[1][:50]: continue
+            if in_ctl: ctl = True; continue
+            key = (fn['file'], x.get('l'))
+            if key in seen: continue
+            seen.add(key); n += 1
+            chk.analysed(fn)
+            chk.fail('R17.7', U.site(fn, 'brace init of %s' % t[:40]), fn['file'], x.get('l'), '%s: `%s x{<%s>}` - with g++ this selects the initializer_list constructor and yields a container with one element (the array itself) instead of a copy' % (
+                fn['n'], t[:50], t[:30]), None, fn['q'])
+    chk.require(ctl, 'R17.7 positive control (brace-initialised vector<json> in drivers/reflect.cpp) not detected')
+    chk.ok('R17.7', 'drivers/reflect.cpp positive control', {'control_found': True, 'library_instances': n})
+
+def r17_8(chk, facts):
+    """Cursor protocol of decode_traits<T>::decode: the function returns with the cursor on the last event of the value it decoded
+    (containers stop on their end event; the caller advances).  A value that is one event long must therefore not be stepped over."""
+    from .. import cfg as C
+    chk.rule('R17.8', 'cursor protocol: in decode_traits<T>::decode, a branch selected by a single-event value (case/test of a *_value event type) '
+                      'does not advance the cursor before it returns the value; the member loops of the generated decoders advance themselves, '
+                      'so an extra step drops the next member name', floor=1)
+    en = U.enum_by_suffix(F.load(['core'], 'quick'), '::staj_events')
+    names = U.enum_value_names(en)
+    n = 0; seen = set()
+    for fn in facts.functions:
+        if fn.get('body') is None or fn.get('dep') or not fn['file'].endswith('reflect/decode_traits.hpp') or fn['n'] != 'decode': continue
+        if (fn['file'], fn['l']) in seen: continue
+        g = C.CFG(fn['body'])
+        k = 0
+        for nd in g.rpo:
+            if nd.kind != 'switch' or 'event_type' not in A.text(nd.ast): continue
+            for e in nd.succ:
+                if e.kind != 'edge' or not isinstance(e.label, tuple) or e.label[0] != 'case': continue
+                evn = names.get(e.label[1], '')
+                if not evn.endswith('_value'): continue
+                if (fn['file'], fn['l']) not in seen: seen.add((fn['file'], fn['l'])); chk.analysed(fn)
+                k += 1; n += 1
+                site = U.site(fn, 'case %s' % evn)
+                steps = []
+                reach = g.reachable_from(e, avoid=[x for x in nd.succ if x is not e])
+                for m in g.rpo:
+                    if m.id in reach and m.kind in ('stmt', 'cond') and isinstance(m.ast, dict):
+                        for c in A.calls_in(m.ast):
+                            if A.callee_name(c) == 'next' and A.ref_name(c.get('obj')) == 'cursor': steps.append(c)
+                if not steps: chk.ok('R17.8', site, {'event': evn})
+                else: chk.fail('R17.8', site, fn['file'], steps[0].get('l'), 'decode: the %s branch calls cursor.next() (line %s) after reading the value: the caller advances again and the next member name is lost ("Not a key")' % (evn, steps[0].get('l')), None, fn['q'])
+    chk.require(n >= 1, 'R17.8: no single-event value branch found in decode_traits.hpp')
+
 def run(chk, tier, only_rule=None):
     chk.explanation = EXPLANATION
     chk.not_decided = NOT_DECIDED
@@ -325,5 +388,7 @@ def run(chk, tier, only_rule=None):
     r17_2(chk, facts)
     r17_5(chk, facts)
     r17_6(chk, facts)
+    r17_7(chk, facts)
+    r17_8(chk, facts)
     r17_3(chk, facts)
     r17_4(chk, facts)
